@@ -92,7 +92,8 @@ var spaceNames = [...]string{"srgb", "adobergb", "prophotorgb", "displayp3"}
 func (o opSpec) String() string {
 	switch o.Kind {
 	case opAdapt:
-		return "ciexyz.AdaptBetweenXYYWhitePoints(D65,D50).Apply"
+		n := [...]string{"D65", "D50"}
+		return fmt.Sprintf("ciexyz.AdaptBetween%sWhitePoints(%s,%s).Apply", [...]string{"XYY", "XYZ"}[o.C>>2%2], n[o.C%2], n[1-o.C>>1%2])
 	case opLoad:
 		return fmt.Sprintf("loader %d on corpus file %d", o.A%4, o.B)
 	case opConvertImage:
@@ -333,7 +334,16 @@ func execOp(o opSpec) uint64 {
 			return hashBytes(9, prism.ConvertImageToRGBA(in, par).Pix)
 		}
 	case opAdapt:
-		ad := ciexyz.AdaptBetweenXYYWhitePoints(ciexyy.D65, ciexyy.D50)
+		// the white-point pair varies between calls (and so between concurrent
+		// callers): a cache of "the last adaptation" must not leak across pairs
+		wps := [...]ciexyy.Color{ciexyy.D65, ciexyy.D50}
+		sw, dw := wps[o.C%2], wps[1-o.C>>1%2]
+		var ad ciexyz.ChromaticAdaptation
+		if o.C>>2%2 == 0 {
+			ad = ciexyz.AdaptBetweenXYYWhitePoints(sw, dw)
+		} else {
+			ad = ciexyz.AdaptBetweenXYZWhitePoints(ciexyz.ColorFromXYY(sw), ciexyz.ColorFromXYY(dw))
+		}
 		c := ad.Apply(ciexyz.Color{X: f01(o.A), Y: f01(o.B), Z: f01(o.C)})
 		return uint64(math.Float32bits(c.X)) ^ uint64(math.Float32bits(c.Y))<<20 ^ uint64(math.Float32bits(c.Z))<<40
 	case opLoad:
